@@ -893,6 +893,22 @@ func (m *Machine) assign(s *ast.AssignStmt, f frame, ctx *fnctx) []frame {
 		}
 		var next []frame
 		for _, g := range cur {
+			// a named condition (`unterminated := IsNewLine(c) || c == EOF`): the frames are
+			// split here, so that a later test of the name is exact for each byte set
+			if m.isConditionShape(s.Rhs[i]) {
+				t, fl := m.cond(s.Rhs[i], g, ctx)
+				for _, x := range t {
+					if !x.set.Empty() {
+						next = append(next, x.bind(lhsObj(l), val{k: vBool, b: true}))
+					}
+				}
+				for _, x := range fl {
+					if !x.set.Empty() {
+						next = append(next, x.bind(lhsObj(l), val{k: vBool, b: false}))
+					}
+				}
+				continue
+			}
 			for _, ev := range m.expr(s.Rhs[i], g, ctx) {
 				next = append(next, ev.f.bind(lhsObj(l), ev.v))
 			}
@@ -900,6 +916,33 @@ func (m *Machine) assign(s *ast.AssignStmt, f frame, ctx *fnctx) []frame {
 		cur = next
 	}
 	return cur
+}
+
+// isConditionShape: a boolean expression built with !, &&, ||, == or != (a comparison of
+// the current byte, a byte-class predicate, or a combination of those).
+func (m *Machine) isConditionShape(e ast.Expr) bool {
+	t := m.Pkg.TypesInfo.TypeOf(e)
+	if t == nil {
+		return false
+	}
+	if b, ok := t.Underlying().(*types.Basic); !ok || b.Info()&types.IsBoolean == 0 {
+		return false
+	}
+	switch x := ast.Unparen(e).(type) {
+	case *ast.UnaryExpr:
+		return x.Op == token.NOT
+	case *ast.BinaryExpr:
+		switch x.Op {
+		case token.LAND, token.LOR, token.EQL, token.NEQ:
+			return true
+		}
+	case *ast.CallExpr:
+		if callee := m.callee(x); callee != nil {
+			_, ok := m.predSets[callee]
+			return ok
+		}
+	}
+	return false
 }
 
 // isLenMinusOne: Index(v - 1) with v a library length.
